@@ -68,7 +68,10 @@ def _run_one(job):
         out = _DRIVER.realise(cin, extra)
     except Exception as ex:  # the driver itself failed: machinery error, not a verdict
         return {"id": cid, "in": cin, "machinery_error": "%s: %s\n%s" % (type(ex).__name__, ex, traceback.format_exc())}
-    rec = {"id": cid, "in": cin, "out": out}
+    if isinstance(out, dict) and "in2" in out and "out" in out:      # the driver refined the abstract input (padding, measured rows)
+        rec = {"id": cid, "in": out["in2"], "out": out["out"], "abstract_in": cin}
+    else:
+        rec = {"id": cid, "in": cin, "out": out}
     if extra is not None:
         rec["variant"] = extra
     return rec
